@@ -219,15 +219,19 @@ class Parser:
                 raise Unsupported("deref value " + s)
             return [s]
         if isinstance(v, list) and len(v) == 1 and isinstance(v[0], dict) and list(v[0].keys()) == ["$or"]:
-            alts = v[0]["$or"]
-            if not isinstance(alts, list) or not alts:
-                raise Unsupported("deref $or")
-            out = []
-            for a in alts:
-                if isinstance(a, bool) or not isinstance(a, (str, int)) or str(a).startswith(("&", "$", "@")):
-                    raise Unsupported("deref alt")
-                out.append(str(a))
-            return out
+            def flat(alts):
+                if not isinstance(alts, list) or not alts:
+                    raise Unsupported("deref $or")
+                out = []
+                for a in alts:
+                    if isinstance(a, dict) and list(a.keys()) == ["$or"]:
+                        out += flat(a["$or"])            # alternation is associative: a nested $or adds its alternatives
+                    elif isinstance(a, bool) or not isinstance(a, (str, int)) or str(a).startswith(("&", "$", "@")):
+                        raise Unsupported("deref alt")
+                    else:
+                        out.append(str(a))
+                return out
+            return flat(v[0]["$or"])
         raise Unsupported("deref value form")
 
 
